@@ -6,7 +6,7 @@
 * `C11_bailout_general_real_all`, `C11_bailout_general_end_real_all` — `C11_bailout_general` / `C11_bailout_general_end` for the
   REAL controller, EVERY error (the handler error included), no hypothesis about the run.
 -/
-import LolHtml.Thm.Full21
+import LolHtml.Thm.Full26
 
 namespace LolHtml.Thm.Full
 open LolHtml LolHtml.Model LolHtml.Model.Full LolHtml.Lemmas.Full
